@@ -127,7 +127,7 @@ def main():
                 "quick_cmd": f"/verif/check.sh {pid} quick",
                 "thorough_cmd": f"/verif/check.sh {pid} thorough",
                 "evidence_file": f"/verif/evidence/{pid}.json",
-                "replay_cmd_template": "cat {path}   # a Go test: run it with `go test -tags verif -overlay` as its header says",
+                "replay_cmd_template": "/verif/tools/replay.sh {path}",
                 "engine": "govc",
                 "level_claimed": {"category": "proof", "text": text, "design_ref": ref},
                 "level_note": COMMON_NOTE,
